@@ -49,3 +49,39 @@ Print Assumptions board_search_spec_nott.
 Check initial_board_At.
 Check kr_theorem_applied.
 Check kr_run_2.
+
+(** * Against the specification: the value returned is the minimax value of the FIDE game tree
+
+    The theorems above speak about the reference value [b_mm] over the model's own tree.
+    Lemmas/MinimaxRefines1-6.v show that this value IS [spec_mm] of Spec/Minimax.v over the
+    specification game of Spec/Game.v (mailbox board, FIDE move rules, repetition / fifty-move /
+    insufficient-material draws, mate and stalemate), for the engine's configuration (material leaf,
+    full exploration, captures-only quiescence): same legal moves up to a permutation
+    ([legal_permutation], [spec_legal_nodup]), same draw verdicts at the children ([RG_child]), same
+    terminal values, and the fold over the children does not depend on their order up to [go_eq]
+    ([sfold_same_set]; Leibniz equality fails between +0.0 and -0.0: [sfold_perm_not_leibniz]).
+    Side condition [depth = 0 -> use_q = true -> drawn_here gs = false]: a depth-0 "search" of a root at
+    which a draw can be claimed is a bare quiescence call of a cleared root; the specification value
+    there is 0 ([depth0_corner]); unreachable through iterative deepening, which starts at depth 1. *)
+From Morlock.Lemmas Require Import MinimaxRefines1 MinimaxRefines2 MinimaxRefines3 MinimaxRefines4 MinimaxRefines5
+  MinimaxRefines MinimaxRefines6.
+Definition C03_search_is_spec_minimax := @board_search_is_spec_minimax.
+Check @board_search_is_spec_minimax.
+Check @board_search_is_spec_minimax_table.
+Check @board_search_is_spec_minimax_game.
+Check @new_board_search_is_spec_minimax.
+Check @b_mm_is_spec_mm.
+Check @b_mm_is_spec_mm_material.
+Check @legal_permutation.
+Check @spec_legal_nodup.
+Check @RG_new.
+Check @RG_child.
+Check @RG_of_Game.
+Check @sfold_same_set.
+Check sfold_perm_not_leibniz.
+Check depth0_corner.
+Check kr_values.
+Check kr_applied.
+Print Assumptions board_search_is_spec_minimax.
+Print Assumptions board_search_is_spec_minimax_table.
+Print Assumptions new_board_search_is_spec_minimax.
